@@ -21,6 +21,8 @@ def evaluate(ctx, res, spec, start, ext_ops, cfg, pre_start_ops=()):
   if cfg.get('pre_subscribe'):
     # subscribe() before start_at posted a meta event lifo: the object's first step handles it internally (in top)
     pre_start_ops = [('lifo', 'SUBSCRIBE_META_SIGNAL')] + list(pre_start_ops)
+  if cfg.get('pre_publish'):
+    pre_start_ops = ([('lifo', 'SUBSCRIBE_META_SIGNAL')] if cfg.get('pre_subscribe') else []) + [('lifo', 'PUBLISH_META_SIGNAL')] + [x for x in pre_start_ops if x[1] != 'SUBSCRIBE_META_SIGNAL']
   wit = {'spec': spec, 'start': start, 'ext_ops': ext_ops, 'config': cfg, 'pre_start_ops': list(pre_start_ops)}
 
   def bad(prop, key, what, **kw):
@@ -126,6 +128,9 @@ def evaluate(ctx, res, spec, start, ext_ops, cfg, pre_start_ops=()):
         if want == 'SUBSCRIBE_META_SIGNAL':
           ctx.count('subscribe_meta_steps')
           exp.append('SUBSCRIBING TO:(VT_PRE_SUB, TYPE:%s)' % cfg['pre_subscribe'])     # written by top, which handles the meta event
+        if want == 'PUBLISH_META_SIGNAL':
+          ctx.count('publish_meta_steps')
+          exp.append('PUBLISH:(VT_PRE_PUB, PRIORITY:1000)')
         exp.append(reflection(len(qm.q), len(qm.d)))
         if len(exp) < RTC_RING:
           ctx.count('spy_step_logs')
